@@ -14,7 +14,9 @@
   not decided.
 
   Part 1  round trips decode (encode x) = x: uvarint, argMin/argMax(String, Float32) (single state and a column read into
-          reused slots; `decide` witnesses for the reader before the fix), t-digest centroids, uniq state.
+          reused slots; `decide` witnesses for the reader before the fix), t-digest centroids, uniq state; percentile / uniq
+          result columns decoded block by block through one column object: rows the reader kept from earlier blocks are
+          never changed by later blocks (`refcol_roundtrip`, `refcol_stable`; `decide` witness for a Reset that keeps slots).
   Part 2  one (key, string-top) value: count / sum / sum of squares / min / max after any list of valid contributions.
   Part 3  the shard map: a received row changes exactly the values it addresses (`row_is_merge`), every (key, top) is written
           once per aggregator bucket (`one_row_per_key`), the key columns read back (injective).
@@ -270,6 +272,139 @@ theorem unique_nil_roundtrip (u : USt) (rest : Bytes) (h : u.alloc = false) :
 
 example : WfU { alloc := true, k := 1, cnt := 3, hasZero := true, vals := [32768, 6] } :=
   ⟨rfl, by decide, by decide, by decide, by decide⟩
+
+/-! ### columns that hand out references, several result blocks through one column object -/
+
+theorem decodeBlock_fresh {α : Type} (reuse : α → α → Bool) : ∀ (vs heap : List α),
+    decodeBlock reuse heap [] vs = (heap ++ vs, (List.range vs.length).map (heap.length + ·)) := by
+  intro vs
+  induction vs with
+  | nil => intro heap; simp [decodeBlock]
+  | cons v vs ih =>
+    intro heap
+    simp only [decodeBlock, List.head?_nil, Option.join_none, storeSlot, List.tail_nil, ih, List.length_append,
+      List.length_cons, List.length_nil, List.append_assoc, List.cons_append, List.nil_append]
+    refine Prod.ext rfl ?_
+    simp only [List.range_succ_eq_map, List.map_cons, Nat.add_zero, List.map_map]
+    congr 1
+    apply List.map_congr_left
+    intro i _
+    simp only [Function.comp_apply]; omega
+
+/-- with `Reset` dropping the backing array, every block allocates fresh objects: the heap only grows and the reader's
+    references are exactly the objects in allocation order -/
+theorem colBlock_drop {α : Type} (reuse : α → α → Bool) (st : ColState α) (vs : List α)
+    (h : st.retained = List.range st.heap.length) :
+    (colBlock .drop reuse st vs).heap = st.heap ++ vs ∧
+    (colBlock .drop reuse st vs).retained = List.range (st.heap ++ vs).length := by
+  unfold colBlock
+  simp only [offered, decodeBlock_fresh, h, List.length_append, true_and]
+  rw [List.range_add]
+
+theorem colBlocks_drop_gen {α : Type} (reuse : α → α → Bool) : ∀ (blocks : List (List α)) (st : ColState α),
+    st.retained = List.range st.heap.length →
+    (blocks.foldl (colBlock .drop reuse) st).heap = st.heap ++ blocks.flatten ∧
+    (blocks.foldl (colBlock .drop reuse) st).retained = List.range (st.heap ++ blocks.flatten).length := by
+  intro blocks
+  induction blocks with
+  | nil => intro st h; simpa using h
+  | cons b blocks ih =>
+    intro st h
+    obtain ⟨h1, h2⟩ := colBlock_drop reuse st b h
+    have := ih (colBlock .drop reuse st b) (by rw [h2, h1])
+    simp only [List.foldl_cons, List.flatten_cons]
+    rw [this.1, this.2, h1, List.append_assoc]
+    exact ⟨rfl, rfl⟩
+
+theorem range_lookup {α : Type} (L : List α) : (List.range L.length).map (fun r => L[r]?) = L.map some := by
+  apply List.ext_getElem
+  · simp
+  · intro i hi1 hi2
+    simp only [List.length_map, List.length_range] at hi1
+    simp [List.getElem?_eq_getElem hi1]
+
+/-- C03, result columns read block by block (ColTDigest, ColUnique with `Reset` = `*col = nil`): after ANY number of blocks
+    through one column object, every row the reader kept — from whichever block — still reads as the value decoded for it. -/
+theorem refcol_roundtrip {α : Type} (reuse : α → α → Bool) (blocks : List (List α)) :
+    readBack (colBlocks .drop reuse blocks) = blocks.flatten.map some := by
+  obtain ⟨h1, h2⟩ := colBlocks_drop_gen reuse blocks ColState.init rfl
+  unfold readBack colBlocks
+  rw [h2, h1]
+  simp only [ColState.init, List.nil_append]
+  exact range_lookup _
+
+/-- … in particular decoding one more block never changes what was handed out for the blocks before it -/
+theorem refcol_stable {α : Type} (reuse : α → α → Bool) (blocks : List (List α)) (b : List α) :
+    (readBack (colBlocks .drop reuse (blocks ++ [b]))).take blocks.flatten.length = readBack (colBlocks .drop reuse blocks) := by
+  rw [refcol_roundtrip, refcol_roundtrip, List.flatten_append]
+  simp only [List.flatten_cons, List.flatten_nil, List.append_nil]
+  generalize blocks.flatten = L
+  rw [List.map_append]
+  have : L.length = (L.map some).length := by simp
+  rw [this, List.take_left']
+  rfl
+
+/-- a `Reset` that keeps the backing array (what the ArgMin/ArgMax columns do) breaks it for digests: the slot of block 1 is
+    refilled in place by block 2, and the row the reader kept from block 1 now shows block 2's centroids -/
+example : readBack (colBlocks .keep tdReuse [[[(1, 1)], [(5, 5)]], [[(2, 2)]]]) = [some [(2, 2)], some [(5, 5)], some [(2, 2)]] := by decide
+example : readBack (colBlocks .drop tdReuse [[[(1, 1)], [(5, 5)]], [[(2, 2)]]]) = [some [(1, 1)], some [(5, 5)], some [(2, 2)]] := by decide
+
+theorem readCentroidsCol_enc : ∀ (l : List (List (Nat × Nat))) (rest : Bytes),
+    (∀ cs ∈ l, cs.length < 2 ^ 64 ∧ ∀ c ∈ cs, c.1 < 4294967296 ∧ c.2 < 4294967296) →
+    readCentroidsCol l.length (l.flatMap encCentroids32 ++ rest) = some (l, rest) := by
+  intro l
+  induction l with
+  | nil => intro rest _; simp [readCentroidsCol]
+  | cons cs l ih =>
+    intro rest h
+    have hc := h cs (List.mem_cons_self ..)
+    simp only [List.flatMap_cons, List.length_cons, readCentroidsCol, List.append_assoc]
+    rw [centroids_roundtrip cs _ hc.1 hc.2]
+    simp only
+    rw [ih rest (fun x hx => h x (List.mem_cons_of_mem _ hx))]
+
+theorem readUniqueCol_enc : ∀ (l : List USt) (rest : Bytes), (∀ u ∈ l, WfU u) →
+    readUniqueCol l.length (l.flatMap encUnique ++ rest) = some (l, rest) := by
+  intro l
+  induction l with
+  | nil => intro rest _; simp [readUniqueCol]
+  | cons u l ih =>
+    intro rest h
+    simp only [List.flatMap_cons, List.length_cons, readUniqueCol, List.append_assoc]
+    rw [unique_roundtrip u _ (h u (List.mem_cons_self ..))]
+    simp only
+    rw [ih rest (fun x hx => h x (List.mem_cons_of_mem _ hx))]
+
+/-- bytes of a percentile result, block by block → what the reader holds after the last block: all inserted centroid lists -/
+theorem tdcol_roundtrip (blocks : List (List (List (Nat × Nat))))
+    (h : ∀ b ∈ blocks, ∀ cs ∈ b, cs.length < 2 ^ 64 ∧ ∀ c ∈ cs, c.1 < 4294967296 ∧ c.2 < 4294967296) :
+    (blocks.mapM (fun b => (readCentroidsCol b.length (b.flatMap encCentroids32)).map (·.1))).map
+        (fun vals => readBack (colBlocks .drop tdReuse vals)) = some (blocks.flatten.map some) := by
+  have : blocks.mapM (fun b => (readCentroidsCol b.length (b.flatMap encCentroids32)).map (·.1)) = some blocks := by
+    induction blocks with
+    | nil => rfl
+    | cons b blocks ih =>
+      have hb := readCentroidsCol_enc b [] (h b (List.mem_cons_self ..))
+      simp only [List.append_nil] at hb
+      rw [List.mapM_cons, hb, ih (fun x hx => h x (List.mem_cons_of_mem _ hx))]
+      rfl
+  rw [this]
+  simp [refcol_roundtrip]
+
+/-- the same for a uniq result -/
+theorem uniqcol_roundtrip (reuse : USt → USt → Bool) (blocks : List (List USt)) (h : ∀ b ∈ blocks, ∀ u ∈ b, WfU u) :
+    (blocks.mapM (fun b => (readUniqueCol b.length (b.flatMap encUnique)).map (·.1))).map
+        (fun vals => readBack (colBlocks .drop reuse vals)) = some (blocks.flatten.map some) := by
+  have : blocks.mapM (fun b => (readUniqueCol b.length (b.flatMap encUnique)).map (·.1)) = some blocks := by
+    induction blocks with
+    | nil => rfl
+    | cons b blocks ih =>
+      have hb := readUniqueCol_enc b [] (h b (List.mem_cons_self ..))
+      simp only [List.append_nil] at hb
+      rw [List.mapM_cons, hb, ih (fun x hx => h x (List.mem_cons_of_mem _ hx))]
+      rfl
+  rw [this]
+  simp [refcol_roundtrip]
 
 /-! ## Part 2 — one value: the fold of its contributions -/
 
